@@ -56,6 +56,13 @@ class Check(HCheck):
         sp.append(Space(Cfg("never"), al.all_crawl_batches([A, Ax, Axy, Ab]), 1, roots=prep + [(al.page(Axy), al.page(Ax, True), al.page(Ab, True))], name="shapes/crawl"))
         if thorough:
             sp.append(Space(Cfg("never"), al.all_link_batches(P3, 2), 2, roots=[al.R0], name="shapes/links-x2"))
+        big = [
+            al.crawl((Ab, tuple(Ab + b"p:%03d|" % i for i in range(300)) + (Az,)), (Az, (Ab,))),
+            al.crawl(*[(Az + b"p:%03d|" % i, (Ax,)) for i in range(600)]),
+            al.links(*[(Ab, Ax)] * 300),
+            al.links((Ax, Ab), (Ab, Ax)),
+        ]
+        sp.append(Space(Cfg("never"), big, 2, name="sizes/big-batches"))
         # two different corpora, queries in between, clear and reopen: every sequence (no merging)
         life = [al.links((Ax, Ab), (Ab, Ax), (Ax, Ax)), al.crawl((Bb, (Az, Axy)), (Az, (Bb,))), al.links((Az, Az), (Axy, Bb)), al.OBS, al.clear("never", {}), al.REOPEN]
         sp.append(Space(Cfg("never"), life, 5 if thorough else 4, name="lifecycle/never", dedup=False))
@@ -80,12 +87,13 @@ class Check(HCheck):
             if wt > 1:
                 ctx.count("weight_gt1_seen")
         obs = []
-        for p in sorted(m.pages):
+        big = len(m.pages) > 60  # size letters: every page still checked, with fewer switch settings
+        for pi, p in enumerate(sorted(m.pages)):
             outs = out_by.get(p, [])
             ins = in_by.get(p, [])
             if outs and ins:
                 ctx.count("in_and_out_on_one_page")
-            for inb, inte, outb in SWITCHES:
+            for inb, inte, outb in (SWITCHES if not big else [(True, True, True), (False, True, True), (True, False, False)]):
                 exp = []
                 for tg, wt in outs:
                     if tg != p and outb:
@@ -107,6 +115,8 @@ class Check(HCheck):
                     return
                 if inb and inte and outb:
                     obs.append(sorted(got))
+            if big and pi > 40 and not (outs and ins):
+                continue
             # degrees
             eo = [(tg, wt) for tg, wt in outs if tg != p]
             ei = [(s, wt) for s, wt in ins if s != p]
